@@ -131,6 +131,14 @@ def run_safety(nnodes, nedges):
                 failed.append("non-DETACH delete accepted although an attached relationship is not deleted: [%s]" % p.signature())
             if not dangling and not ok_ret:
                 failed.append("non-DETACH delete refused although every attached relationship is deleted too: [%s]" % p.signature())
+            if ok_ret:
+                for e in p.events:
+                    m = re.match(r"^node(\d+)$", e)
+                    if m:
+                        k = m.group(1)
+                        for d in ("out", "in"):
+                            if not any(x.startswith("%s(node%s) end" % (d, k)) for x in p.events):
+                                failed.append("delete accepted without consulting the %s relationships of a deleted node" % ("outgoing" if d == "out" else "incoming"))
             if ok_ret and len(checked) != len(attached):
                 failed.append("delete accepted without checking every attached relationship (%d attached, %d checked): [%s]" % (
                     len(attached), len(checked), p.signature()))
